@@ -468,7 +468,10 @@ class RTDCBase(abc.ABC):
                         # There might be a basin availability check going on
                         # somewhere, but we are not interested in it.
                         continue
-                    if bn.is_available():
+                    if bn.verify_basin():
+                        # The basin is available and belongs to the same
+                        # measurement (remote basins are not verified
+                        # in `basins_retrieve`).
                         features += bn.features
                 self._basins_features = sorted(set(features))
             else:
